@@ -234,8 +234,11 @@ Qed.
 Definition file_inv (st : lstate) : Prop :=
   NoDup (file st) /\ forall t, In t (file st) <-> phases st t = PDoneOk.
 
-Lemma file_inv_init : file_inv linit.
+Lemma file_inv_idle l0 : file_inv (LS l0 (fun _ => PIdle) []).
 Proof. split; [constructor|]. intros t. cbn. split; [contradiction | discriminate]. Qed.
+
+Lemma file_inv_init : file_inv linit.
+Proof. apply file_inv_idle. Qed.
 
 Lemma file_inv_step early st t a : file_inv st -> file_inv (lstep_gen early st t a).
 Proof.
@@ -262,6 +265,7 @@ Proof.
   - destruct (free_for (lock st) t); [apply Keep; congruence | exact Same].
   - apply Keep; congruence.
   - apply Keep; congruence.
+  - apply Keep; congruence.
   - destruct (owned_by (lock st) t); apply Keep; congruence.
   - destruct (owned_by (lock st) t); [apply Add; congruence|].
     destruct early; [apply Add; congruence | apply Keep; congruence].
@@ -272,40 +276,57 @@ Proof.
   induction sched as [|[t a] r IH]; intros st H; cbn [lrun_gen]; [exact H|]. apply IH. apply file_inv_step. exact H.
 Qed.
 
+Lemma lock_file_sound_from early l0 sched :
+  let st := lrun_gen early (LS l0 (fun _ => PIdle) []) sched in
+  NoDup (file st) /\ forall t, In t (file st) <-> phases st t = PDoneOk.
+Proof. apply file_inv_run. apply file_inv_idle. Qed.
+
 Lemma lock_file_sound early sched :
   NoDup (file (lrun_gen early linit sched)) /\
   forall t, In t (file (lrun_gen early linit sched)) <-> phases (lrun_gen early linit sched) t = PDoneOk.
-Proof. apply file_inv_run. apply file_inv_init. Qed.
+Proof. apply (lock_file_sound_from early None sched). Qed.
 
 (* the current code (row flushed while the lock is believed held): without a time-out no row is lost, whatever the
    interleaving - mutual exclusion is not needed any more *)
-Lemma no_loss_step st t : (forall u, phases st u <> PDoneLost) -> forall u, phases (lstep st t Step) u <> PDoneLost.
+Lemma no_loss_step st t a : a <> Timeout -> (forall u, phases st u <> PDoneLost) ->
+  forall u, phases (lstep st t a) u <> PDoneLost.
 Proof.
-  intros H. unfold lstep, lstep_gen.
+  intros Ha H. unfold lstep, lstep_gen.
   assert (Set_ : forall p l f, p <> PDoneLost -> forall u, phases (LS l (setp (phases st) t p) f) u <> PDoneLost).
   { intros p l f Hp u. cbn [phases]. destruct (Nat.eq_dec u t) as [->|Hu]; [rewrite setp_same; exact Hp | rewrite setp_other by exact Hu; apply H]. }
-  destruct (phases st t) eqn:P; try exact H.
+  destruct (phases st t) eqn:P; destruct a; try congruence; try exact H.
   - destruct (free_for (lock st) t); [apply Set_; discriminate | exact H].
+  - apply Set_; discriminate.
   - apply Set_; discriminate.
   - destruct (owned_by (lock st) t); apply Set_; discriminate.
   - destruct (owned_by (lock st) t); apply Set_; discriminate.
 Qed.
 
 Lemma no_timeout_no_loss : forall sched st, (forall u, phases st u <> PDoneLost) ->
-  Forall (fun s => snd s = Step) sched -> forall u, phases (lrun st sched) u <> PDoneLost.
+  Forall (fun s => snd s <> Timeout) sched -> forall u, phases (lrun st sched) u <> PDoneLost.
 Proof.
   induction sched as [|[t a] r IH]; intros st H F; [exact H|].
-  inversion F as [|? ? Ha Fr]; subst. cbn [snd] in Ha. subst a.
-  change (lrun st ((t, Step) :: r)) with (lrun (lstep st t Step) r). apply IH; [apply no_loss_step; exact H | exact Fr].
+  inversion F as [|? ? Ha Fr]; subst. cbn [snd] in Ha.
+  change (lrun st ((t, a) :: r)) with (lrun (lstep st t a) r). apply IH; [apply no_loss_step; assumption | exact Fr].
 Qed.
+
+(* from any content of the lock file (e.g. a stale lock left by a killed run), with take-overs allowed *)
+Lemma flush_no_loss_from l0 sched : Forall (fun s => snd s <> Timeout) sched ->
+  let st := lrun (LS l0 (fun _ => PIdle) []) sched in
+  forall t, finished (phases st t) = true -> In t (file st).
+Proof.
+  intros F st t Ft. apply (proj2 (lock_file_sound_from true l0 sched)).
+  pose proof (no_timeout_no_loss sched (LS l0 (fun _ => PIdle) []) (fun u => ltac:(discriminate)) F t) as Hn.
+  change (phases st t = PDoneOk). change (phases st t <> PDoneLost) in Hn.
+  destruct (phases st t); try discriminate; [reflexivity | congruence].
+Qed.
+
+Lemma step_not_timeout sched : Forall (fun s => snd s = Step) sched -> Forall (fun s : nat * action => snd s <> Timeout) sched.
+Proof. apply Forall_impl. intros s E. rewrite E. discriminate. Qed.
 
 Lemma flush_no_loss sched : Forall (fun s => snd s = Step) sched ->
   forall t, finished (phases (lrun linit sched) t) = true -> In t (file (lrun linit sched)).
-Proof.
-  intros F t Ft. apply (proj2 (lock_file_sound true sched)).
-  pose proof (no_timeout_no_loss sched linit (fun u => ltac:(discriminate)) F t) as Hn.
-  fold (lrun linit sched). destruct (phases (lrun linit sched) t); try discriminate; [reflexivity | congruence].
-Qed.
+Proof. intros F. apply (flush_no_loss_from None sched (step_not_timeout sched F)). Qed.
 
 (* mutual exclusion, as a property of a schedule: before every step at most one task is between its
    successful check and its release, and nobody times out *)
@@ -384,3 +405,7 @@ Lemma lock_timeout_loses_row :
   let st := lrun linit timeout_schedule in
   phases st 0 = PDoneLost /\ phases st 1 = PDoneOk /\ file st = [1].
 Proof. cbn. repeat split. Qed.
+
+(* a stale lock is taken over and every work package of the run leaves its row (current code) *)
+Lemma stale_lock_keeps_rows : file (lrun (lstale 7) (stale_serial_schedule 3)) = [0; 1; 2].
+Proof. reflexivity. Qed.
